@@ -303,6 +303,345 @@ theorem bad_signature_rejected_before_tx {D} (t : TxCtx D) (bs : List BIn) (hash
       exact addSigsFrom_invalid t bs hashes sigs 0 j (by omega) (by omega) hj
         (fun b d s _ hd hs => hbad d s hd hs)
 
+/-! ## Composition over the whole input list -/
+
+/-- verdict of running a redeem / witness script on `[pk, sig]` followed by the final check -/
+def redeemVerdict {D} (cx : Ctx D) (wit : Bool) (redeem pk sigFull : Bytes) : Except Err Unit :=
+  match runScript cx wit redeem [pk, sigFull] with
+  | .error e => .error e
+  | .ok st => checkFinal wit st
+
+/-- An input of one of the four classes the wallet signs, for the key with public key `pk` and
+    the signature `der` supplied for it: P2PKH / P2WPKH of `hash160 pk`, or P2SH / P2WSH of a redeem
+    script that accepts `<sig> <pk>` (deposit scripts with `walletPKH = hash160 pk` do:
+    `walletInput_deposit`). -/
+inductive WalletInput {D} (t : TxCtx D) (pk : Bytes) : Nat → InSpec → Bytes → Prop
+  | p2pkh (i : Nat) (v : Int) (der : Bytes) (hl : (t.hash160 pk).length = 20) :
+      WalletInput t pk i ⟨.pkh, p2pkh (t.hash160 pk), v, []⟩ der
+  | p2wpkh (i : Nat) (v : Int) (der : Bytes) (hl : (t.hash160 pk).length = 20) :
+      WalletInput t pk i ⟨.pkh, p2wpkh (t.hash160 pk), v, []⟩ der
+  | p2sh (i : Nat) (v : Int) (der redeem : Bytes) (hl : (t.hash160 redeem).length = 20)
+      (hr : 2 ≤ redeem.length ∧ redeem.length ≤ 520)
+      (hacc : redeemVerdict (t.at i v) false redeem pk (der ++ [sigHashAll]) = .ok ()) :
+      WalletInput t pk i ⟨.sh, p2sh (t.hash160 redeem), v, redeem⟩ der
+  | p2wsh (i : Nat) (v : Int) (der redeem : Bytes) (hl : (t.sha256 redeem).length = 32)
+      (hr : redeem.length ≤ 10000)
+      (hacc : redeemVerdict (t.at i v) true redeem pk (der ++ [sigHashAll]) = .ok ()) :
+      WalletInput t pk i ⟨.sh, p2wsh (t.sha256 redeem), v, redeem⟩ der
+
+theorem parse_isSome_of_accepts {D} (cx : Ctx D) (wit : Bool) (redeem pk s : Bytes)
+    (h : redeemVerdict cx wit redeem pk s = .ok ()) : (parse redeem).isSome := by
+  unfold redeemVerdict runScript at h
+  cases hp : parse redeem with
+  | none => simp [hp] at h
+  | some ops => rfl
+
+/-- per-input step of the builder for a wallet input: the input is added, its script code parses,
+    the unlocking data is built, and the interpreter accepts it -/
+theorem walletInput_ok {D} (t : TxCtx D) (pk : Bytes) (i : Nat) (s : InSpec) (der : Bytes)
+    (hw : WalletInput t pk i s der) (hs : WalletSig t i s pk der) :
+    ∃ b u, addInput i s = .ok b ∧ (parse b.scriptCode).isSome ∧
+      unlockFor b ⟨pk, der⟩ = some u ∧ validate t i s u = .ok () := by
+  cases hw with
+  | p2pkh v _ hl =>
+    obtain ⟨u, hu, hv⟩ := input_spends_p2pkh t i pk der v hl hs
+    unfold signedInput at hu
+    cases hb : addInput i ⟨.pkh, p2pkh (t.hash160 pk), v, []⟩ with
+    | error e => simp [hb] at hu
+    | ok b =>
+      simp only [hb] at hu
+      have hb' := hb
+      refine ⟨b, u, rfl, ?_, hu, hv⟩
+      simp [addInput, classify_p2pkh _ hl] at hb
+      subst hb
+      simp [parse_p2pkh _ hl]
+  | p2wpkh v _ hl =>
+    obtain ⟨u, hu, hv⟩ := input_spends_p2wpkh t i pk der v hl hs
+    unfold signedInput at hu
+    cases hb : addInput i ⟨.pkh, p2wpkh (t.hash160 pk), v, []⟩ with
+    | error e => simp [hb] at hu
+    | ok b =>
+      simp only [hb] at hu
+      have hb' := hb
+      refine ⟨b, u, rfl, ?_, hu, hv⟩
+      simp [addInput, classify_p2wpkh _ hl] at hb
+      subst hb
+      simp [parse_p2wpkh _ hl]
+  | p2sh v _ redeem hl hr hacc =>
+    obtain ⟨u, hu, hv⟩ := input_p2sh_reduces t i pk der redeem v hl hr hs.derLen hs.compressed
+    unfold signedInput at hu
+    cases hb : addInput i ⟨.sh, p2sh (t.hash160 redeem), v, redeem⟩ with
+    | error e => simp [hb] at hu
+    | ok b =>
+      simp only [hb] at hu
+      have hb' := hb
+      refine ⟨b, u, rfl, ?_, hu, ?_⟩
+      · simp [addInput, classify_p2sh _ hl] at hb
+        subst hb
+        exact parse_isSome_of_accepts _ _ _ _ _ hacc
+      · rw [hv]; exact hacc
+  | p2wsh v _ redeem hl hr hacc =>
+    have hp := parse_isSome_of_accepts _ _ _ _ _ hacc
+    obtain ⟨u, hu, hv⟩ := input_p2wsh_reduces t i pk der redeem v hl hr hp hs.derLen hs.compressed
+    unfold signedInput at hu
+    cases hb : addInput i ⟨.sh, p2wsh (t.sha256 redeem), v, redeem⟩ with
+    | error e => simp [hb] at hu
+    | ok b =>
+      simp only [hb] at hu
+      have hb' := hb
+      refine ⟨b, u, rfl, ?_, hu, ?_⟩
+      · simp [addInput, classify_p2wsh _ hl] at hb
+        subst hb
+        exact hp
+      · rw [hv]; exact hacc
+
+/-- the signature containers the wallet hands to `AddSignatures`: one per input, all with the
+    wallet public key -/
+def containers (pk : Bytes) (ders : List Bytes) : List SigC := ders.map (fun der => ⟨pk, der⟩)
+
+/-- the builder pipeline from input number `k` on, for wallet inputs with verifying signatures -/
+theorem pipeline_ok {D} (t : TxCtx D) (pk : Bytes) : ∀ (ins : List InSpec) (ders : List Bytes) (k : Nat),
+    ders.length = ins.length →
+    (∀ j s der, ins[j]? = some s → ders[j]? = some der →
+      WalletInput t pk (k + j) s der ∧ WalletSig t (k + j) s pk der) →
+    ∃ bs hs us, addInputs k ins = .ok bs ∧ computeHashes t k bs = .ok hs ∧
+      addSigsFrom t k bs hs (containers pk ders) = .ok us ∧
+      bs.length = ins.length ∧ hs.length = ins.length ∧ us.length = ins.length ∧
+      ∀ j s u, ins[j]? = some s → us[j]? = some u → validate t (k + j) s u = .ok () := by
+  intro ins
+  induction ins with
+  | nil =>
+    intro ders k hl _
+    have : ders = [] := List.eq_nil_of_length_eq_zero (by simpa using hl)
+    subst this
+    exact ⟨[], [], [], rfl, rfl, rfl, rfl, rfl, rfl, by intro j s u h; simp at h⟩
+  | cons s ins ih =>
+    intro ders k hl hall
+    cases ders with
+    | nil => simp at hl
+    | cons der ders =>
+      have h0 := hall 0 s der rfl rfl
+      simp only [Nat.add_zero] at h0
+      obtain ⟨b, u, hb, hp, hu, hv⟩ := walletInput_ok t pk k s der h0.1 h0.2
+      obtain ⟨bs, hs, us, e1, e2, e3, l1, l2, l3, hval⟩ := ih ders (k + 1) (by simpa using hl)
+        (by
+          intro j s' der' h1 h2
+          have := hall (j + 1) s' der' (by simpa using h1) (by simpa using h2)
+          have e : k + (j + 1) = k + 1 + j := by omega
+          rw [e] at this
+          exact this)
+      obtain ⟨ops, hops⟩ := Option.isSome_iff_exists.1 hp
+      have hver : t.verify pk der (builderDigest t k b) = true := h0.2.valid b hb
+      refine ⟨b :: bs, builderDigest t k b :: hs, u :: us, ?_, ?_, ?_, by simp [l1], by simp [l2],
+        by simp [l3], ?_⟩
+      · simp [addInputs, hb, e1]
+      · simp [computeHashes, hops, e2]
+      · have e3' : addSigsFrom t (k + 1) bs hs (List.map (fun der => (⟨pk, der⟩ : SigC)) ders) = .ok us := by
+          simpa [containers] using e3
+        simp [containers, addSigsFrom, hver, hu, e3']
+      · intro j s' u' h1 h2
+        cases j with
+        | zero =>
+          simp at h1 h2
+          subst h1; subst h2
+          simpa using hv
+        | succ j =>
+          have := hval j s' u' (by simpa using h1) (by simpa using h2)
+          have e : k + (j + 1) = k + 1 + j := by omega
+          rw [e]
+          exact this
+
+/-- **C27, first half (`all_inputs_spend`)**: for every non-empty list of inputs of the four
+    classes (any mix, any count, any values) and every list of signatures each of which verifies
+    for the digest the builder computed for its input, the whole flow — add the inputs, compute the
+    signature hashes, `AddSignatures` — returns a transaction, with one unlocking datum per input,
+    and EVERY input is accepted by the script interpreter against its UTXO's locking script. -/
+theorem all_inputs_spend {D} (t : TxCtx D) (pk : Bytes) (ins : List InSpec) (ders : List Bytes)
+    (hne : ins ≠ []) (hl : ders.length = ins.length)
+    (hall : ∀ j s der, ins[j]? = some s → ders[j]? = some der →
+      WalletInput t pk j s der ∧ WalletSig t j s pk der) :
+    ∃ bs us, buildAndSign t ins (fun _ => containers pk ders) = .ok (bs, us) ∧
+      us.length = ins.length ∧
+      ∀ j s u, ins[j]? = some s → us[j]? = some u → validate t j s u = .ok () := by
+  obtain ⟨bs, hs, us, e1, e2, e3, l1, l2, l3, hval⟩ := pipeline_ok t pk ins ders 0 hl
+    (by intro j s der h1 h2; simpa using hall j s der h1 h2)
+  have hn : ins.length ≠ 0 := by
+    intro h; exact hne (List.eq_nil_of_length_eq_zero h)
+  refine ⟨bs, us, ?_, l3, by intro j s u h1 h2; simpa using hval j s u h1 h2⟩
+  unfold buildAndSign addSignatures
+  have hc : (containers pk ders).length = bs.length := by simp [containers, hl, l1]
+  have hh : ¬ hs.length = 0 := by omega
+  simp [e1, e2, hh, hc, e3]
+
+/-! ## No cross-input mixing: each digest is computed from its own input's data only -/
+
+/-- what `Add…Input` records for the signature hash is the input's own value and its own script -/
+theorem addInput_args (i : Nat) (s : InSpec) (b : BIn) (h : addInput i s = .ok b) :
+    b.value = s.value ∧ b.witness = isWitnessProgramBytes s.utxoScript ∧
+      b.scriptCode = (match s.add with | .pkh => s.utxoScript | .sh => s.redeem) := by
+  unfold addInput at h
+  cases hadd : s.add <;> simp only [hadd] at h <;> split at h <;> cases h <;> simp
+
+theorem addInputs_get : ∀ (ins : List InSpec) (k : Nat) (bs : List BIn), addInputs k ins = .ok bs →
+    ∀ j s, ins[j]? = some s → ∃ b, bs[j]? = some b ∧ addInput (k + j) s = .ok b := by
+  intro ins
+  induction ins with
+  | nil => intro k bs _ j s h; simp at h
+  | cons s0 ins ih =>
+    intro k bs h j s hj
+    simp only [addInputs] at h
+    cases hb : addInput k s0 with
+    | error e => simp [hb] at h
+    | ok b0 =>
+      simp only [hb] at h
+      cases hr : addInputs (k + 1) ins with
+      | error e => simp [hr] at h
+      | ok bs' =>
+        simp only [hr] at h
+        cases h
+        cases j with
+        | zero => simp at hj; subst hj; exact ⟨b0, rfl, by simpa using hb⟩
+        | succ j =>
+          obtain ⟨b, h1, h2⟩ := ih (k + 1) bs' hr j s (by simpa using hj)
+          refine ⟨b, by simpa using h1, ?_⟩
+          have e : k + (j + 1) = k + 1 + j := by omega
+          rw [e]; exact h2
+
+theorem computeHashes_get {D} (t : TxCtx D) : ∀ (bs : List BIn) (k : Nat) (hs : List D),
+    computeHashes t k bs = .ok hs →
+    ∀ j b, bs[j]? = some b → hs[j]? = some (builderDigest t (k + j) b) := by
+  intro bs
+  induction bs with
+  | nil => intro k hs _ j b h; simp at h
+  | cons b0 bs ih =>
+    intro k hs h j b hj
+    simp only [computeHashes] at h
+    cases hp : parse b0.scriptCode with
+    | none => simp [hp] at h
+    | some ops =>
+      simp only [hp] at h
+      cases hr : computeHashes t (k + 1) bs with
+      | error e => simp [hr] at h
+      | ok hs' =>
+        simp only [hr] at h
+        cases h
+        cases j with
+        | zero => simp at hj; subst hj; simp
+        | succ j =>
+          have := ih (k + 1) hs' hr j b (by simpa using hj)
+          have e : k + (j + 1) = k + 1 + j := by omega
+          rw [e]; simpa using this
+
+/-- **C27 `digests_per_input`**: the `j`-th signature hash `ComputeSignatureHashes` returns is the
+    digest of input `j`'s own index, own script code (locking script for P2(W)PKH, redeem script
+    for P2(W)SH), own sigversion and own UTXO value — nothing of any other input enters it. -/
+theorem digests_per_input {D} (t : TxCtx D) (ins : List InSpec) (bs : List BIn) (hs : List D)
+    (h1 : addInputs 0 ins = .ok bs) (h2 : computeHashes t 0 bs = .ok hs)
+    (j : Nat) (s : InSpec) (hj : ins[j]? = some s) :
+    hs[j]? = some
+      (let code := (match s.add with | .pkh => s.utxoScript | .sh => s.redeem)
+       if isWitnessProgramBytes s.utxoScript then t.sighash j (bip143Code code) sigHashAll true s.value
+       else t.sighash j code sigHashAll false 0) := by
+  obtain ⟨b, hb, hadd⟩ := addInputs_get ins 0 bs h1 j s hj
+  have := computeHashes_get t bs 0 hs h2 j b hb
+  simp only [Nat.zero_add] at this hadd
+  obtain ⟨a1, a2, a3⟩ := addInput_args j s b hadd
+  rw [this]
+  simp [builderDigest, a1, a2, a3]
+
+/-! ## Deposit inputs are wallet inputs -/
+
+/-- A deposit output (P2SH or P2WSH) whose wallet public key hash is the hash of the signing key is
+    an input of the kind `all_inputs_spend` covers (via C28: the wallet branch accepts). -/
+theorem walletInput_deposit {D} (t : TxCtx D) (i : Nat) (k : C28.Kind) (d : C28.Deposit)
+    (wf : C28.WellFormed d) (pk der : Bytes) (v : Int)
+    (h160 : (t.hash160 (C28.template d)).length = 20) (hsha : (t.sha256 (C28.template d)).length = 32)
+    (hw : t.hash160 pk = d.walletPKH)
+    (enc : t.sigEnc der = none) (hc : isCompressedPk pk = true) (hp : t.parsePk pk = true)
+    (hv : t.verify pk der (checkSigDigest (t.at i v) (C28.isWit k) (C28.template d) sigHashAll) = true) :
+    WalletInput t pk i
+      (match k with
+       | .p2sh => ⟨.sh, p2sh (t.hash160 (C28.template d)), v, C28.template d⟩
+       | .p2wsh => ⟨.sh, p2wsh (t.sha256 (C28.template d)), v, C28.template d⟩) der := by
+  have tl := C28.template_length_bounds d wf
+  have this : (t.at i v).hash160 pk = d.walletPKH := hw
+  cases k with
+  | p2sh =>
+    have g : GoodSig (t.at i v) false (C28.template d) pk der sigHashAll := ⟨by decide, enc, hc, hp, hv⟩
+    refine WalletInput.p2sh i v der _ h160 (by omega) ?_
+    unfold redeemVerdict
+    rw [C28.deposit_runScript _ _ d wf]
+    simp [C28.spendSpec, this, opCheckSig_good _ _ _ _ _ _ [] g, checkFinal, asBool]
+  | p2wsh =>
+    have g : GoodSig (t.at i v) true (C28.template d) pk der sigHashAll := ⟨by decide, enc, hc, hp, hv⟩
+    refine WalletInput.p2wsh i v der _ hsha (by omega) ?_
+    unfold redeemVerdict
+    rw [C28.deposit_runScript _ _ d wf]
+    simp [C28.spendSpec, this, opCheckSig_good _ _ _ _ _ _ [] g, checkFinal, asBool]
+
+/-! ## Monitor tie: the monitor accepts every model output -/
+
+/-- valid signatures on wallet inputs: the model produces a transaction whose inputs are all
+    accepted, and the monitor says `ok` -/
+theorem holds_model_valid {D} (t : TxCtx D) (pk : Bytes) (ins : List InSpec) (ders : List Bytes)
+    (hne : ins ≠ []) (hl : ders.length = ins.length)
+    (hall : ∀ j s der, ins[j]? = some s → ders[j]? = some der →
+      WalletInput t pk j s der ∧ WalletSig t j s pk der) :
+    holds (List.replicate ins.length true)
+      (modelOutcome t ins (fun _ => containers pk ders)).1
+      (modelOutcome t ins (fun _ => containers pk ders)).2 = true := by
+  obtain ⟨bs, us, hb, hlen, hval⟩ := all_inputs_spend t pk ins ders hne hl hall
+  simp only [modelOutcome, hb]
+  simp only [holds, List.all_replicate, List.length_map, List.length_range, List.length_replicate]
+  have hn : ins.length ≠ 0 := fun h => hne (List.eq_nil_of_length_eq_zero h)
+  simp [hn, hlen]
+  intro x hx
+  have e1 : ins[x]? = some ins[x] := by simp [hx]
+  have e2 : us[x]? = some (us[x]'(by omega)) := by simp [hlen, hx]
+  rw [e1, e2]
+  simp only []
+  rw [hval x _ _ e1 e2]
+  rfl
+
+/-- some signature does not verify for its input's digest: the model produces no transaction,
+    and the monitor (which then demands exactly that) says `ok` -/
+theorem holds_model_invalid {D} (t : TxCtx D) (ins : List InSpec) (sign : List D → List SigC)
+    (sigOk : List Bool) (hso : sigOk.all id = false)
+    (hbad : ∀ bs hs, addInputs 0 ins = .ok bs → computeHashes t 0 bs = .ok hs →
+      ∃ j, j < (sign hs).length ∧
+        ∀ d s, hs[j]? = some d → (sign hs)[j]? = some s → t.verify s.pk s.der d = false) :
+    holds sigOk (modelOutcome t ins sign).1 (modelOutcome t ins sign).2 = true := by
+  have herr : ∃ e, buildAndSign t ins sign = .error e := by
+    unfold buildAndSign
+    cases h1 : addInputs 0 ins with
+    | error e => exact ⟨e, rfl⟩
+    | ok bs =>
+      cases h2 : computeHashes t 0 bs with
+      | error e => exact ⟨e, by simp [h2]⟩
+      | ok hs =>
+        obtain ⟨j, hj, hv⟩ := hbad bs hs h1 h2
+        have hlen : hs.length = bs.length := by
+          clear hv hj
+          have : ∀ (bs : List BIn) (k : Nat) (hs : List D), computeHashes t k bs = .ok hs → hs.length = bs.length := by
+            intro bs
+            induction bs with
+            | nil => intro k hs h; simp [computeHashes] at h; subst h; rfl
+            | cons b bs ih =>
+              intro k hs h
+              simp only [computeHashes] at h
+              cases hp : parse b.scriptCode with
+              | none => simp [hp] at h
+              | some ops =>
+                simp only [hp] at h
+                cases hr : computeHashes t (k + 1) bs with
+                | error e => simp [hr] at h
+                | ok hs' => simp only [hr] at h; cases h; simp [ih (k + 1) hs' hr]
+          exact this bs 0 hs h2
+        obtain ⟨e, he⟩ := bad_signature_rejected_before_tx t bs hs (sign hs) j hlen hj hv
+        exact ⟨e, by simp [h2, he]⟩
+  obtain ⟨e, he⟩ := herr
+  simp [modelOutcome, he, holds, hso]
+
 /-! ## Monitor tie and non-vacuity -/
 
 /-- the monitor accepts a transaction all of whose inputs were accepted … -/
